@@ -340,16 +340,6 @@ class QuantSim(object):
     self.nontrivial = False
     self.worst = 0.0
 
-  def _take_refs(self, q):
-    q0 = copy.copy(q)
-    q0.qnoise_factor = 0.0
-    q1 = copy.copy(q)
-    q1.qnoise_factor = 1.0
-    if G.has_ste(self.cfg):
-      q1.use_ste = False
-    self.s, self.xq = G.call(q0, self.x), G.call(q1, self.x)
-    self.ok = _finite(self.s) & _finite(self.xq)
-
   def _value(self, f, kind):
     import tensorflow as tf  # pylint: disable=g-import-not-at-top
     if kind == "py":
